@@ -1,7 +1,7 @@
 """Joint analysis/reconstruction traces validated by Trace_Stream (C02, C08, C04)."""
 import json, os
 from common import *
-from deflate_common import gen_streams, gen_hex
+from deflate_common import gen_streams, gen_hex, vh_or_isolate
 
 
 def record_stream_traces(wd, tier, seed, name="st", extra=None, cross=False):
